@@ -1,0 +1,43 @@
+//! Read-only introspection of the node arena, only compiled with the cargo feature
+//! `verif-hooks`. Used by an external verification harness; never changes the map.
+
+use super::PrefixMap;
+
+/// A snapshot of the internal storage of a [`PrefixMap`].
+#[derive(Debug, Clone, PartialEq, Eq)]
+pub struct VerifArena {
+    /// Number of node slots ever allocated (length of the arena).
+    pub arena_len: usize,
+    /// Capacity of the arena vector.
+    pub arena_capacity: usize,
+    /// The content of the free list (slots available for reuse).
+    pub free: Vec<usize>,
+    /// The cached entry counter.
+    pub count: usize,
+    /// For each slot: `(left, right, has_value)`.
+    pub slots: Vec<(Option<usize>, Option<usize>, bool)>,
+}
+
+impl<P, T> PrefixMap<P, T> {
+    /// Return a snapshot of the internal storage.
+    pub fn verif_arena(&self) -> VerifArena {
+        let table = self.table.as_ref();
+        VerifArena {
+            arena_len: table.len(),
+            arena_capacity: table.capacity(),
+            free: self.free.clone(),
+            count: self.count,
+            slots: table
+                .iter()
+                .map(|n| (n.left, n.right, n.value.is_some()))
+                .collect(),
+        }
+    }
+}
+
+impl<P> crate::PrefixSet<P> {
+    /// Return a snapshot of the internal storage.
+    pub fn verif_arena(&self) -> VerifArena {
+        self.0.verif_arena()
+    }
+}
